@@ -11,7 +11,7 @@ TRUSTED = [
  "extraction: ExtrOcamlBasic only (bool, option, unit, list, prod, sumbool, sumor mapped to OCaml types); nat, positive, Z stay extracted inductives; OCaml 4.13.1; ocaml/cosim.ml (parsing/printing/comparison)",
  "correspondence: the hand-written model coq/Model.v is tied to /repo by co-simulation on explored executions only: harness (Rust, /verif/harness) drives the real crate built with features verif_hooks,slow_assertions under a one-thread-at-a-time scheduler; hooks in /repo/src/verif_hooks.rs define the atomic segments",
  "modelled, not verified: tokio::sync::Mutex as a FIFO hand-off mutex, std::sync::Mutex, Arc strong counts, lru::LruCache order, std HashMap iteration order (oracle, validated as a permutation), FuturesUnordered (oracle: which per-entry future ran), tokio Instant arithmetic floor, Rust drop order/unwinding",
- "second correspondence (C01, C02, C05, C14): coq/ExtractSpec.v extracts SeqRefine.spec_call / seq_call (same ExtrOcamlBasic directives) to spec.ml; ocaml/lincheck.ml (parsing, Wing-Gong search, comparison) decides whether recorded real-thread histories of the crate built WITHOUT hooks (smoke lin: stamps from one global atomic counter) are linearisable w.r.t. spec_call and replays the witness on seq_call; sampled histories only",
+ "second correspondence (C01, C02, C04, C05, C06, C13, C14): coq/ExtractSpec.v extracts SeqRefine.spec_call / seq_call (same ExtrOcamlBasic directives) to spec.ml; ocaml/lincheck.ml (parsing, Wing-Gong search, comparison) decides whether recorded real-thread histories of the crate built WITHOUT hooks (smoke lin: stamps from one global atomic counter) are linearisable w.r.t. spec_call and replays the witness on seq_call; sampled histories only",
  "executed only by /verif/smoke (ordinary multi-threaded tests of the crate built without the hooks feature), never by the harness: tokio's blocking wait in ReplicaArc::blocking_lock_owned and RealTime::now",
  "not modelled separately (only exercised through the harness): public wrapper methods of lockable_hash_map.rs / lockable_lru_cache.rs / lockpool.rs, SyncLimit/AsyncLimit enums, borrowed vs owned variants, Never/InfallibleUnwrap, Debug impls",
 ]
@@ -48,7 +48,8 @@ prop("C04",
      [fam("nolimit","H",1500), fam("nolimit","L",1500), fam("pool","P",1000), fam("dfs-cancel","H",4000), fam("mix","H",800,"monitor"), fam("evict","L",800,"monitor"), fam("stream","H",800,"monitor"), fam("scale","L",2,"monitor"), fam("fine-nolimit","H",2000), fam("fine-mix","L",2000), fam("wide","H",600)],
      [fam("nolimit","H",40000), fam("nolimit","L",40000), fam("pool","P",20000), fam("dfs-cancel","H",80000), fam("dfs-lock3","H",100000), fam("mix","H",20000,"monitor"), fam("evict","L",20000,"monitor"), fam("stream","H",20000,"monitor"), fam("fine-nolimit","H",40000), fam("fine-mix","L",40000), fam("fine-stream","H",40000), fam("wide","H",20000), fam("wide-evict","L",20000)],
      cosim_ignore="order,stamp,value",
-     smoke=True)
+     smoke=True,
+     lin="final")
 prop("C12",
      ["C12_consume", "C12_consume_never_panics", "C12_consume_enabled"],
      ["C12.", "C13."],
@@ -63,7 +64,8 @@ prop("C13",
      [fam("mix","H",40000), fam("mix","L",40000), fam("nolimit","L",20000), fam("evict","H",20000), fam("evict","L",20000), fam("expiry","L",20000), fam("stream","H",20000), fam("stream","L",20000), fam("pool","P",20000),
       fam("dfs-cancel","H",80000), fam("dfs-stream","L",80000), fam("dfs-evict","L",100000), fam("dfs-expiry","L",100000), fam("dfs-lock3","H",100000), fam("fine-mix","H",40000), fam("fine-mix","L",40000), fam("fine-evict","L",40000), fam("fine-evict","H",40000), fam("fine-stream","L",40000), fam("fine-expiry","L",40000), fam("scale-stream","L",16,"monitor"), fam("scale","L",8,"monitor"), fam("wide","H",20000), fam("wide","L",20000), fam("wide-evict","L",20000), fam("wide-evict","H",20000), fam("fine-wide","L",20000), fam("fine-wide-evict","H",20000)],
      cosim_ignore="order,stamp,value",
-     smoke=True)
+     smoke=True,
+     lin="panic")
 
 
 prop("C03",
@@ -79,7 +81,8 @@ prop("C06",
      ["C04.", "C12.", "C13.", "C06."],
      [fam("dfs-cancel","H",6000), fam("dfs-cancel","L",6000), fam("dfs-stream","L",4000), fam("dfs-stream","H",4000), fam("nolimit","H",1500), fam("stream","L",1500), fam("evict","L",800), fam("mix","L",800), fam("fine-mix","L",1500), fam("fine-stream","H",1500), fam("wide","L",600)],
      [fam("dfs-cancel","H",100000), fam("dfs-cancel","L",100000), fam("dfs-stream","L",100000), fam("dfs-stream","H",100000), fam("nolimit","H",40000), fam("nolimit","L",40000), fam("stream","L",40000), fam("stream","H",40000), fam("evict","L",20000), fam("mix","L",20000), fam("pool","P",20000), fam("fine-mix","L",40000), fam("fine-stream","H",40000), fam("fine-nolimit","L",40000), fam("wide","L",20000), fam("fine-wide","H",20000)],
-     cosim_ignore="order,stamp")
+     cosim_ignore="order,stamp",
+     lin="final")
 prop("C07",
      ["C07_offered", "C07_no_callback", "C07_no_limit_no_callback", "C07_bound", "C07_cooperative_round", "C07_cooperative_loop_terminates", "C07_cooperative_round_enabled", "C07_cooperative_loop_reaches_lookup", "C07_witness"],
      ["C07."],
